@@ -53,7 +53,7 @@ package protocol
 //@   |   trimmedProtos[j - cnt(row(S), off(S), j, P)] == S[j] && 0 <= cnt(row(S), off(S), j, P) && cnt(row(S), off(S), j, P) <= j
 //@   |   && j - cnt(row(S), off(S), j, P) < len(trimmedProtos)
 //@   loop 1 invariant[scan] rangeindex + 1 >= 0
-//@   call field:protocol.InterceptingListener.generateServerCertificatesFn assert[C02 nowaiver] arg2 != nil && (arg2.SkipVerification ==> hasPrefix(protoToReturn, FetchNodeCredsNextProtoV1Prefix))
+//@   call field:protocol.InterceptingListener.generateServerCertificatesFn assert[C02,C16 nowaiver] arg2 != nil && (arg2.SkipVerification ==> hasPrefix(protoToReturn, FetchNodeCredsNextProtoV1Prefix))
 //@   call tls.ServerConfig assert[C02 expectedkey] bytes(opts(arg2).WithExpectedPublicKey) == bytes(serverCertsReq.CertificatePublicKeyPkix)
 // (the waiver for the credential-fetch handshake is added by the closure on the fetch branch only; an application that
 // configures the listener itself with the fetch prefix option is outside the property)
